@@ -117,6 +117,15 @@ def gen_scenario(rng, shard_no, slot, index):
 
 
 def run_scenario(col: Collector, rng, shard_no, slot, index):
+    state = rng.getstate()
+    if _run_scenario_once(col, rng, shard_no, slot, index, final=False) == "no-result":
+        # the harness itself could not start or finish (starved machine): once more, with the same scenario, before giving up
+        col.count("scenarios_rerun_after_harness_failure")
+        rng.setstate(state)
+        _run_scenario_once(col, rng, shard_no, slot, index, final=True)
+
+
+def _run_scenario_once(col: Collector, rng, shard_no, slot, index, final=True):
     from vlib.common.driver import PY, child_env
     spec, plan_class, kinds = gen_scenario(rng, shard_no, slot, index)
     if not spec["commands"]:
@@ -134,7 +143,7 @@ def run_scenario(col: Collector, rng, shard_no, slot, index):
         p = subprocess.Popen([PY, "-m", "vlib.dataservers", path], env=child_env(), cwd=os.path.dirname(os.path.dirname(os.path.dirname(os.path.abspath(__file__)))),
                              stdout=subprocess.PIPE, stderr=subprocess.DEVNULL, start_new_session=True, text=True)
         try:
-            out, _ = p.communicate(timeout=90)
+            out, _ = p.communicate(timeout=150)
         except subprocess.TimeoutExpired:
             out = ""
         finally:
@@ -164,6 +173,8 @@ def run_scenario(col: Collector, rng, shard_no, slot, index):
            "stats": (res or {}).get("stats")}
     st = (res or {}).get("stats") or {}
     faults = sum(v for k, v in st.items() if k.endswith(("dropped", "duplicated", "delayed")))
+    if (res is None or res.get("outcome") not in ("ok", "inconclusive")) and not final:
+        return "no-result"
     col.case(shape=digest(plan_class, kinds, len(spec["hosts"])), nontrivial=faults >= 1 or len(spec["commands"]) >= 2, sample=wit)
     col.count("scenarios")
     if res is not None and res.get("outcome") == "inconclusive":
@@ -173,7 +184,9 @@ def run_scenario(col: Collector, rng, shard_no, slot, index):
         col.count("scenarios_excluded_still_busy_at_cap")
         return
     if res is None or res.get("outcome") != "ok":
-        col.not_reached(f"scenario produced no result: {(res or {}).get('error', 'timeout')[-300:]}")
+        # twice without a result: excluded and counted; the check as a whole is inconclusive only when this is common (see run_shard)
+        col.observe("scenario_without_result_twice: " + (res or {}).get("error", "timeout")[-120:].replace("\n", " "))
+        col.count("scenarios_without_result")
         return
     col.count("scenarios_judged")
     for n_ in res.get("notes", []):
@@ -195,6 +208,9 @@ def run_shard(spec, col: Collector):
             break
         if col.want(i):
             guarded(col, i, run_scenario, col, case_rng(seed, shard, i), spec["shard_no"], i % 8, i)
+    lost = col.counters.get("scenarios_without_result", 0) + col.counters.get("scenarios_excluded_still_busy_at_cap", 0)
+    if lost and lost * 4 > col.counters.get("scenarios", 0):
+        col.not_reached(f"{lost} of {col.counters.get('scenarios', 0)} scenarios of this shard gave no verdict (harness could not start, or servers still busy at the cap)")
 
 
 def plan(tier, seed, scale=1.0):
